@@ -83,3 +83,17 @@ pub proof fn lemma_sum_mono(s: Seq<Redeemer>, i: int)
         assert(s.take(i + 1).drop_last() =~= s.take(i));
     } else { assert(s.take(i) =~= s); }
 }
+
+// derived PartialEq / PartialOrd of the BigInt wrapper: comparison of the denoted integers (canonical representation)
+impl vstd::std_specs::cmp::PartialEqSpecImpl for BigInt {
+    open spec fn obeys_eq_spec() -> bool { true }
+    open spec fn eq_spec(&self, other: &BigInt) -> bool { self.v() == other.v() }
+}
+impl PartialEq for BigInt { #[verifier::external_body] fn eq(&self, other: &BigInt) -> (r: bool) { unimplemented!() } }
+impl vstd::std_specs::cmp::PartialOrdSpecImpl for BigInt {
+    open spec fn obeys_partial_cmp_spec() -> bool { true }
+    open spec fn partial_cmp_spec(&self, other: &BigInt) -> Option<core::cmp::Ordering> {
+        if self.v() < other.v() { Some(core::cmp::Ordering::Less) } else if self.v() == other.v() { Some(core::cmp::Ordering::Equal) } else { Some(core::cmp::Ordering::Greater) }
+    }
+}
+impl PartialOrd for BigInt { #[verifier::external_body] fn partial_cmp(&self, o: &BigInt) -> (r: Option<core::cmp::Ordering>) { unimplemented!() } }
